@@ -169,6 +169,11 @@ func (c *checker) checkValidate(r *Rec) {
 		c.stats["val.inconclusive-pd-error"]++
 		return
 	}
+	if r.ErrKind == "canceled" && r.Call.CancelUs > 0 {
+		// the caller cancelled its own call; a cancellation error of a call whose own context is alive is judged below
+		c.stats["val.own-cancel"]++
+		return
+	}
 	if r.ReadTS == math.MaxUint64 {
 		// the "latest" marker is not a timestamp: a stale read must not use it; a normal read may
 		if r.Call.Stale {
